@@ -66,6 +66,9 @@ def shards(tier, seed):
             out.append(("containers", cfg, b, 8))
         out.append(("triples", cfg))
         out.append(("dimspecs", cfg))
+        out.append(("warm", cfg, "containers"))
+        if tier != "quick":
+            out.append(("warm", cfg, "units"))
     out.append(("generated",))
     return out
 
@@ -297,7 +300,7 @@ ALPHA_C = ("meter", "second", "kilogram", "radian", "newton", "hertz", "liter")
 
 
 def containers(tier, maxn=2):
-    exps = [-1, 1, 2, Fraction(1, 2)] if tier == "quick" else [-2, -1, Fraction(-1, 2), Fraction(1, 2), 1, 2]
+    exps = [-2, -1, 1, 2, Fraction(1, 2)] if tier == "quick" else [-2, -1, Fraction(-1, 2), Fraction(1, 2), 1, 2, 3]
     out = []
     for n in range(1, maxn + 1):
         for names in itertools.combinations(ALPHA_C, n):
@@ -336,7 +339,7 @@ def run_containers(acc, cfg, block, nblocks, tier):
             acc.ev(3)
             if i != j:
                 acc.nt(("cont", cfg, i, j))
-            case = {"cfg": cfg, "a": {k: str(v) for k, v in a.items()}, "b": {k: str(v) for k, v in b.items()}}
+            case = {"cfg": cfg, "a": {k: str(v) for k, v in a.items()}, "b": {k: str(v) for k, v in b.items()}, "block": [block, nblocks]}
             try:
                 r = ureg.convert(1, ua, ub)
                 o = ("ok", r)
@@ -355,6 +358,53 @@ def run_containers(acc, cfg, block, nblocks, tier):
                     acc.violation(["compound", api, "predicate-disagrees-with-dimension-vectors", cfg], case, want, oo)
             acc.outcome("compatible" if want else "incompatible")
     acc.sample({"clause": "compound", "cfg": cfg, "a": {k: str(v) for k, v in cs[block * 7 % len(cs)].items()}, "b": {k: str(v) for k, v in cs[-1 - block].items()}})
+
+
+def run_warm(acc, cfg, tier, what):
+    """history clause: the verdict for a pair must not depend on which conversions the registry
+    has already performed.  Pass 1 converts EVERY ordered pair of the alphabet in one registry (so
+    every memo the registry keeps is as warm as it can get), pass 2 converts every pair again and
+    compares with the dimension vectors.  Whatever order two colliding pairs are first met in,
+    pass 2 sees the second of them after the first."""
+    from pint.errors import DimensionalityError
+
+    M = model()
+    ureg = regs.default(CONFIGS[cfg]["non_int_type"], fresh=True, **{k: v for k, v in CONFIGS[cfg].items() if k != "non_int_type"})
+    if what == "containers":
+        cs = containers(tier)
+        items = [mk(ureg, cfg, c) for c in cs]
+        dks = [dimkey(M.dim_of_units(c)) for c in cs]
+        show = [{k: str(v) for k, v in c.items()} for c in cs]
+    else:
+        units = mult_units(M)
+        items = units
+        dks = [dimkey(M.dim(u)) for u in units]
+        show = units
+    n = len(items)
+    acc.dim(f"warm alphabet ({what})", n)
+    for pss in (1, 2):
+        for i in range(n):
+            a = items[i]
+            for j in range(n):
+                try:
+                    r = ureg.convert(1, a, items[j])
+                    o = ("ok", r)
+                except DimensionalityError:
+                    o = ("dimerr", None)
+                except Exception as e:  # noqa
+                    o = ("other:" + type(e).__name__, str(e)[:200])
+                if pss == 1:
+                    continue
+                acc.ev()
+                want = dks[i] == dks[j]
+                if i != j:
+                    acc.nt(("warm", what, cfg, i, j))
+                if want and (o[0] != "ok" or not is_number(o[1])):
+                    acc.violation(["history", what, "compatible-pair-refused-after-other-conversions", cfg], {"cfg": cfg, "a": show[i], "b": show[j], "what": what}, "a number", o)
+                if not want and o[0] != "dimerr":
+                    acc.violation(["history", what, "no-DimensionalityError-after-other-conversions", cfg], {"cfg": cfg, "a": show[i], "b": show[j], "what": what}, "DimensionalityError", o)
+    acc.outcome("warm-" + what)
+    acc.sample({"clause": "history", "cfg": cfg, "what": what, "alphabet": n, "passes": 2})
 
 
 def run_triples(acc, cfg, tier):
@@ -538,6 +588,8 @@ def run_shard(acc, shard, tier, seed):
         run_dimspecs(acc, shard[1])
     elif kind == "generated":
         run_generated(acc)
+    elif kind == "warm":
+        run_warm(acc, shard[1], tier, shard[2])
     else:
         raise core.HarnessError(f"unknown shard {shard}")
 
@@ -571,12 +623,17 @@ def replay(rec):
         b = {k: Fraction(v) for k, v in case["b"].items()}
         want = M.dim_of_units(a) == M.dim_of_units(b)
         check_pair(acc, ureg, cfg, mk(ureg, cfg, a), mk(ureg, cfg, b), want, clause="compound")
+        if tuple(site) not in {tuple(v["site"]) for v in acc.violations} and "block" in case:
+            # the verdict may depend on the conversions performed before it: redo the whole block in order
+            run_containers(acc, cfg, case["block"][0], case["block"][1], rec.get("tier", "quick"))
     elif site[0] in ("equivalence", "closure"):
         run_triples(acc, cfg, rec.get("tier", "quick"))
     elif site[0] == "dimspec":
         run_dimspecs(acc, cfg)
+    elif site[0] == "history":
+        run_warm(acc, cfg, rec.get("tier", "quick"), case["what"])
     sites = {tuple(v["site"]) for v in acc.violations}
     return tuple(site) in sites, {"sites_seen": sorted(sites)}
 
 
-MANIFEST = {'category': 'exploration', 'technique': 'bounded exhaustive enumeration of unit pairs / spellings / compound containers / dimension specs against an independent definition-file reader (R1) — small-scope model checking of the compatibility relation', 'text': "All ordered pairs of the multiplicative canonical units of the bundled registry (~150k), every defined spelling alone and prefixed/pluralised, every ordered pair of 1-2 entry compound containers over a 7-unit alphabet with integer and half-integer exponents, all triples of a 40-container sub-alphabet (equivalence laws, closure under * / **), every declared dimension x exponent alphabet as a dimension spec through get_dimensionality / Quantity.check / ureg.check, compatible-unit listings of every unit, and 54 generated registries with derived-dimension DAGs: each conversion must return a number exactly when R1's base-dimension vectors agree and raise DimensionalityError otherwise, and each predicate must equal that relation. thorough repeats everything for Fraction, Decimal, case-insensitive and auto_reduce_dimensions registries.", 'note': 'Trusted: R1 (mc/ref/defs.py, no pint imports; cross-checked against pint on the unchanged tree). Strings with several non-equivalent prefix readings are left to C08; offset/log units to C06; compounds with more than 2 (pairs) / 3 factors and units added after construction are outside the bound.', 'ref': 'DESIGN.md §4 C01'}
+MANIFEST = {'category': 'exploration', 'technique': 'bounded exhaustive enumeration of unit pairs / spellings / compound containers / dimension specs against an independent definition-file reader (R1) — small-scope model checking of the compatibility relation', 'text': "All ordered pairs of the multiplicative canonical units of the bundled registry (~150k), every defined spelling alone and prefixed/pluralised, every ordered pair of 1-2 entry compound containers over a 7-unit alphabet with integer and half-integer exponents, all triples of a 40-container sub-alphabet (equivalence laws, closure under * / **), every declared dimension x exponent alphabet as a dimension spec through get_dimensionality / Quantity.check / ureg.check, compatible-unit listings of every unit, a history clause (every ordered pair of the compound alphabet — thorough: of the canonical units too — converted twice in ONE registry, so that each pair is judged again after every other pair has warmed the registry's memos), and 54 generated registries with derived-dimension DAGs: each conversion must return a number exactly when R1's base-dimension vectors agree and raise DimensionalityError otherwise, and each predicate must equal that relation. thorough repeats everything for Fraction, Decimal, case-insensitive and auto_reduce_dimensions registries.", 'note': 'Trusted: R1 (mc/ref/defs.py, no pint imports; cross-checked against pint on the unchanged tree). Strings with several non-equivalent prefix readings are left to C08; offset/log units to C06; compounds with more than 2 (pairs) / 3 factors and units added after construction are outside the bound.', 'ref': 'DESIGN.md §4 C01'}
